@@ -8,8 +8,25 @@ const WEEK: u64 = 604_800_000_000_000;
 const LEAP: i128 = 18_000_000_000;
 const GPS_EPOCH: i128 = 315_964_800;
 
+/// The module's other conversions, called the way the SeRo reader calls them (Unix time first, then time of day, for the
+/// same reception) or on a neighbouring value: for one judged value in four, chosen by the value itself so that a replay
+/// does the same. What they return is not judged here; they must not change what the judged function returns.
+fn neighbours(x: u64) {
+    use rs1090::decode::time::{since_gps_week_to_unix_s, since_today_to_nanos, today_in_s};
+    if x.wrapping_mul(0x9E37_79B9_7F4A_7C15) >> 62 != 0 {
+        return;
+    }
+    let _ = guarded(|| match (x >> 3) % 4 {
+        0 => since_gps_week_to_unix_s(x) as u128,
+        1 => since_gps_week_to_unix_s(x ^ 1) as u128,
+        2 => since_today_to_nanos(x as u128 % 86_400_000_000_000),
+        _ => today_in_s(x as u128),
+    });
+}
+
 fn check_tow(r: &mut Report, t: u64, class: &str) {
     r.evaluations += 1;
+    neighbours(t);
     let exp = (((t as i128 - LEAP) % DAY) + DAY) % DAY;
     match guarded(|| since_gps_week_to_since_today(t)) {
         Err((loc, msg)) => {
@@ -34,6 +51,7 @@ fn check_tow(r: &mut Report, t: u64, class: &str) {
 
 fn check_week(r: &mut Report, u: u64, class: &str) {
     r.evaluations += 1;
+    neighbours(u);
     match guarded(|| gps_week_in_s(u)) {
         Err((loc, msg)) => r.violation(&format!("C18:panic:week:{}", short_loc(&loc)), format!("gps_week_in_s({u}) panicked: {msg}"), json!({"fn":"week","u":u.to_string()})),
         Ok(w) => {
@@ -60,7 +78,7 @@ fn check_week(r: &mut Report, u: u64, class: &str) {
 }
 
 pub fn run(a: &Args, r: &mut Report) {
-    r.rule = "t: every ns of [0, 2 ms) and of 2 ms around each 18 s + k*day boundary and the week end, stride-997-ns sweeps of +-60 s around each of the 8 day boundaries, every whole second of the week (sharded), random t; u: random Unix times 1980-01-06+18s..2100, every week boundary 1980..2100 +-20 s. distinct = distinct argument values whose result matched the i128 reference".into();
+    r.rule = "t: every ns of [0, 2 ms) and of 2 ms around each 18 s + k*day boundary and the week end, stride-997-ns sweeps of +-60 s around each of the 8 day boundaries, every whole second of the week (sharded), random t; u: random Unix times 1980-01-06+18s..2100, every week boundary 1980..2100 +-20 s. distinct = distinct argument values whose result matched the i128 reference Before one judged value in four the module's other conversions (since_gps_week_to_unix_s on the same or a neighbouring value, since_today_to_nanos, today_in_s) are called, as the SeRo reader does.".into();
     if let Some(p) = &a.replay {
         let v: serde_json::Value = serde_json::from_str(&std::fs::read_to_string(p).unwrap()).unwrap();
         let rp = &v["replay"];
